@@ -226,12 +226,21 @@ Lemma drainpend_inv F nb na d s s' :
 Proof.
   intros HI Epc Hs. pose proof HI as [Hq Hc Hss Hp Hu Hw Hl].
   unfold task_step in Hs. rewrite Epc in Hs. injection Hs as <-.
-  unfold pc_ok in Hp. rewrite Epc in Hp. destruct Hp as (Hsf & Hcur & Hpk).
-  destruct (cells_parked _ Hc Hpk) as (Hph & Hfd & Hwk).
+  unfold pc_ok in Hp. rewrite Epc in Hp. destruct Hp as (Hsf & Hpk & Hph & Hcur).
   destruct (sf_take_cases F s (fun s => s <| pc := PDrainWaker |>) Hc Hss Hsf)
     as [[Hn ->]|(Hok & v & Est & ->)]; [by rewrite Epc| |].
   - apply goto_inv; [done|by rewrite Epc|done|]. unfold pc_ok. cbn. done.
-  - assert (sf_res (sf s) = SfNone) by (apply cells_sf_none; [done|lia]). congruence.
+  - assert (sf_res (sf s) = SfNone) by (by apply cells_sf_none). congruence.
+Qed.
+
+(* a waiting-for-scheduler future means the slot was reached: its task is not parked on an earlier operation *)
+Lemma sched_not_before nb na s v :
+  qshape nb na s -> cells_ok s -> s.(sst) = SWaitSched v -> s.(ready).(o_sent) = true -> phase s <= 3 -> is_other s.(cur) = false.
+Proof.
+  intros Hq Hc Est Hrs Hph.
+  assert (2 <= phase s) as H2.
+  { destruct (decide (phase s <= 1)) as [H1|H1]; [|lia]. pose proof (cells_unsent _ Hc H1). congruence. }
+  destruct (qshape_phase _ _ _ Hq) as [(?&?)|[(p & Hp1 & _)|(?&?)]]; [lia| |lia]. by rewrite Hp1.
 Qed.
 
 Lemma drainwaker_inv F nb na d s s' :
@@ -239,12 +248,17 @@ Lemma drainwaker_inv F nb na d s s' :
 Proof.
   intros HI Epc Hs. pose proof HI as [Hq Hc Hss Hp Hu Hw Hl].
   unfold task_step in Hs. rewrite Epc in Hs. injection Hs as <-.
-  unfold pc_ok in Hp. rewrite Epc in Hp. destruct Hp as (Hsf & Hcur & Hpk).
-  destruct (cells_parked _ Hc Hpk) as (Hph & Hfd & Hwk).
+  unfold pc_ok in Hp. rewrite Epc in Hp. destruct Hp as (Hsf & Hpk & Hph & Hcur).
   apply pending_inv; [done|by rewrite Epc|done| |].
-  - intros _ _. lia.
-  - intros v Est. exfalso. unfold sst_ok in Hss. rewrite Est in Hss. destruct Hss as (_ & _ & Htx & _).
-    rewrite (c_tx _ Hc), Hfd in Htx. done.
+  - intros _ _. destruct Hcur as [Hcur|[Ho Hw']].
+    + left. destruct (qshape_phase _ _ _ Hq) as [(?&?&Hn)|[(p & Hp1 & Hp2 & _)|(?&?&?&Hn)]]; [by destruct (Hn QS2)| |by destruct (Hn QS2)].
+      rewrite Hcur in Hp1. injection Hp1 as <-. lia.
+    + right; right. done.
+  - intros v Est. exfalso. unfold sst_ok in Hss. rewrite Est in Hss. destruct Hss as (_ & Hrs & Htx & _).
+    destruct Hcur as [Hcur|[Ho _]].
+    + destruct (cells_parked _ Hc Hpk) as [Ho|(_ & Hfd & _)]; [by rewrite Hcur in Ho|].
+      rewrite (c_tx _ Hc), Hfd in Htx. done.
+    + rewrite (sched_not_before _ _ _ _ Hq Hc Est Hrs Hph) in Ho. done.
 Qed.
 
 (* ---------- PLoop in WaitingForFuture: the user future is polled ---------- *)
@@ -284,15 +298,16 @@ Proof.
   unfold os_poll in Hs. rewrite (c_ready_tx _ Hc) in Hs.
   destruct (o_sent (ready s)) eqn:Ers; injection Hs as <-.
   - apply goto_inv; [done|by rewrite Epc|done|]. unfold pc_ok; cbn. done.
-  - assert (Hpl : pool s = true).
-    { destruct (pool s) eqn:E; [done|]. destruct (cells_ready_done _ Hc (Hpool eq_refl)); congruence. }
+  - assert (Hpl : pollable s = true \/ pool s = true \/ (parked s = true /\ is_other (cur s) = true /\ owk s = Some WBoth)).
+    { destruct (pool s) eqn:E; [by right; left|]. destruct (Hpool eq_refl) as [H2|[H2|H2]]; [|by left|by right; right].
+      destruct (cells_ready_done _ Hc H2); congruence. }
     split; cbn.
     + eapply qshape_same; [..|exact Hq]; done.
     + eapply cells_ok_view2; [..|exact Hc]; try done; [by right|apply Hc].
     + unfold sst_ok; cbn. rewrite Est. split_and!; try done. by left.
     + unfold pc_ok; cbn. by rewrite Est.
     + eapply ulog_ok_view; [..|exact Hu]; try done; cbn; rewrite Epc; done.
-    + unfold wait_ok in *; cbn. rewrite Est. intros _. right. done.
+    + unfold wait_ok in *; cbn. rewrite Est. intros _. destruct Hpl as [?|Hpl]; [by left|right]. done.
     + done.
 Qed.
 
@@ -409,13 +424,14 @@ Proof.
   assert (c = {| o_sent := o_sent c; o_txdrop := o_txdrop c; o_rxdrop := false; o_waker := None |} /\ w = fwk /\ o_sent c || o_txdrop c = true) as (Ec & -> & Ed).
   { destruct Hcw as [[= -> ->]|[= -> ->]]; done. }
   clear Hcw. rewrite Ec. clear Ec.
-  assert (Hwk : parked0 = true -> fwk = Some WQueue \/ fwk = Some WBoth).
-  { intros ->. destruct (phase_of opq0 cur0) as [|[|[|?]]]; [| | |lia]; cbn in C1; [naive_solver|naive_solver|]. by apply C1. }
+  unfold parked_other in *. cbn in *.
   destruct fwk as [[]|]; cbn.
-  all: split; unfold phase, fin_done; cbn; rewrite ?Ed; try done.
-  all: destruct (phase_of opq0 cur0) as [|[|[|?]]]; [| | |lia]; cbn in *; unfold ready_done in *; cbn in *.
-  all: try (destruct parked0; [by destruct Hwk|]).
+  all: split; unfold phase, fin_done, parked_other; cbn; rewrite ?Ed; try done.
+  all: try (match goal with |- _ <> Some WTask /\ _ => split; [apply C8|intros Hp' Ho'; first [done|by apply C8]] end).
+  all: destruct (phase_of opq0 cur0) as [|[|[|?]]]; [| | |lia]; cbn in *; unfold ready_done, parked_other in *; cbn in *.
   all: try (split_and!; try apply C1; done).
+  all: destruct parked0; [|split_and!; try apply C1; done].
+  all: destruct C1 as (? & ? & C1); destruct (C1 eq_refl) as [_ [?|?]]; done.
 Qed.
 
 (* ---------- PFinSend: task_finished.take().map(send) ---------- *)
@@ -587,6 +603,16 @@ Proof.
   - cbn. apply log_ok_snoc; [done|]. split_and!; done.
 Qed.
 
+(* only the woken flag of the task changes, upwards *)
+Lemma pc_ok_woken F s s' :
+  s'.(pc) = s.(pc) -> s'.(sst) = s.(sst) -> s'.(opq) = s.(opq) -> s'.(cur) = s.(cur) -> s'.(parked) = s.(parked) ->
+  s'.(owk) = s.(owk) -> s'.(pool) = s.(pool) -> s'.(ready) = s.(ready) -> s'.(txheld) = s.(txheld) ->
+  (s.(pollable) = true -> s'.(pollable) = true) -> pc_ok F s -> pc_ok F s'.
+Proof.
+  unfold pc_ok, phase. intros -> -> -> -> -> -> -> -> -> Hpl. destruct (pc s); try done.
+  intros [H1 H2]. split; [done|]. intros E. destruct (H2 E) as [?|[?|?]]; auto.
+Qed.
+
 (* ---------- AWake: spurious wake-up ---------- *)
 Lemma awake_inv F nb na s s' :
   Inv F nb na s -> step F s AWake = Some s' -> Inv F nb na s'.
@@ -595,6 +621,7 @@ Proof.
   split; try done.
   - eapply qshape_same; [..|exact Hq]; done.
   - eapply cells_ok_view; [..|exact Hc]; done.
+  - eapply pc_ok_woken; [..|exact Hp]; done.
   - unfold wait_ok in *; cbn. intros _. by left.
 Qed.
 
@@ -620,6 +647,7 @@ Proof.
     cbn. intros x c' w Hx Hw'. destruct (decide (x = e)) as [->|Hne].
     + rewrite list_lookup_insert in Hx by (by eapply lookup_lt_Some). injection Hx as <-. cbn in Hw'. by apply elem_of_nil in Hw'.
     + rewrite list_lookup_insert_ne in Hx by done. by eapply C6.
+  - eapply pc_ok_woken; [..|exact Hp]; try done. cbn. intros ->. by destruct (regs c).
   - unfold wait_ok in *; cbn.
     intros Epc. destruct (Hw Epc) as [Hpl|Hwait].
     + left. rewrite Hpl. by destruct (regs c).
@@ -629,6 +657,96 @@ Proof.
       * left. rewrite Ec in Hx. destruct Hx as [?|(c' & Hx & Hfc & Hreg)]; [done|]. injection Hx as <-.
         destruct (regs c); [by apply elem_of_nil in Hreg|done].
       * right. exists x, r. split; [done|]. rewrite list_lookup_insert_ne by done. done.
+Qed.
+
+(* ---------- another operation suspends / is resumed; a runner polls a parked queue again ---------- *)
+Lemma other_phase s : is_other s.(cur) = true -> phase s = 0 \/ phase s = 4.
+Proof. unfold phase, phase_of. destruct (existsb _ _); [by left|]. destruct (cur s); try done. by right. Qed.
+
+Lemma cells_park s w p' : cells_ok s -> is_other s.(cur) = true -> w <> WTask ->
+  cells_ok (s <| parked := true |> <| owk := Some w |> <| pc := p' |>).
+Proof.
+  intros [C1 C2 C3 C4 C5 C6 C7 C8] Ho Hw. split; try done.
+  - change (phase (s <| parked := true |> <| owk := Some w |> <| pc := p' |>)) with (phase s).
+    destruct (other_phase s Ho) as [E | E]; rewrite E in *; cbn in *; unfold ready_done, parked_other in *; cbn; split_and!; try apply C1; done.
+  - cbn. split; [congruence|done].
+Qed.
+Lemma cells_unpark s o b : cells_ok s -> (o = s.(owk) \/ o = None) -> (s.(parked) = true -> is_other s.(cur) = true \/ phase s = 2) ->
+  cells_ok (s <| owk := o |> <| parked := false |> <| pollable := b |>).
+Proof.
+  intros [C1 C2 C3 C4 C5 C6 C7 C8] Ho Hpk. split; try done.
+  - change (phase (s <| owk := o |> <| parked := false |> <| pollable := b |>)) with (phase s).
+    destruct (phase s) as [|[|[|[|?]]]] eqn:Eph; cbn in *; unfold ready_done, parked_other in *; cbn; split_and!; try apply C1; try done.
+  - cbn. split; [destruct Ho as [-> | ->]; [apply C8|done]|done].
+Qed.
+
+Lemma aosusp_inv F nb na s s' : Inv F nb na s -> step F s AOSusp = Some s' -> Inv F nb na s'.
+Proof.
+  intros [Hq Hc Hss Hp Hu Hw Hl] Hs. cbn in Hs. destruct (is_other (cur s)) eqn:Ho; [|done].
+  destruct (decide (pc s = PDrainJob)) as [Epc|Hne].
+  - rewrite Epc in Hs. injection Hs as <-. unfold pc_ok in Hp. rewrite Epc in Hp. destruct Hp as [Hsf Hph].
+    split.
+    + eapply qshape_same; [..|exact Hq]; done.
+    + by apply cells_park.
+    + eapply sst_ok_view; [..|exact Hss]; try done. cbn. rewrite Epc. done.
+    + unfold pc_ok; cbn. split_and!; try done. by right.
+    + eapply ulog_ok_view; [..|exact Hu]; try done; cbn; rewrite Epc; done.
+    + unfold wait_ok in *; cbn. done.
+    + done.
+  - assert (Hs' : (if pool s && negb (in_drain (pc s)) && negb (parked s) then Some (s <| parked := true |> <| owk := Some WQueue |>) else None) = Some s')
+      by (destruct (pc s); done).
+    destruct (pool s) eqn:Epool; [|done]. destruct (in_drain (pc s)) eqn:Ed; [done|]. destruct (parked s) eqn:Epk; [done|].
+    cbn in Hs'. injection Hs' as <-.
+    replace (s <| parked := true |> <| owk := Some WQueue |>) with (s <| parked := true |> <| owk := Some WQueue |> <| pc := pc s |>) by (by destruct s).
+    split.
+    + eapply qshape_same; [..|exact Hq]; done.
+    + by apply cells_park.
+    + eapply sst_ok_view; [..|exact Hss]; done.
+    + unfold pc_ok in *; cbn. destruct (pc s); try done. split; [apply Hp|]. cbn. rewrite Epool. done.
+    + eapply ulog_ok_view; [..|exact Hu]; done.
+    + unfold wait_ok in *; cbn. intros E. destruct (Hw E) as [?|Hr]; [by left|right]. destruct (sst s); try done.
+      destruct Hr as (? & ? & _). split_and!; try done. by left.
+    + done.
+Qed.
+
+Lemma aowake_inv F nb na s s' : Inv F nb na s -> step F s AOWake = Some s' -> Inv F nb na s'.
+Proof.
+  intros [Hq Hc Hss Hp Hu Hw Hl] Hs. cbn in Hs. destruct (is_other (cur s)) eqn:Ho; [|done].
+  destruct (parked s) eqn:Epk; [|done]. destruct (in_drain (pc s)) eqn:Ed; [done|]. cbn in Hs.
+  destruct (owk s) as [w|] eqn:Ew; [|done]. injection Hs as <-.
+  assert (Hw' : w = WQueue \/ w = WBoth) by (destruct w; auto; by destruct (proj1 (c_owk _ Hc))).
+  assert (exists b, wake w (s <| owk := None |>) = s <| owk := None |> <| parked := false |> <| pollable := b |> /\
+                    (pollable s = true -> b = true) /\ (w = WBoth -> b = true)) as (b & -> & Hb1 & Hb2).
+  { destruct Hw' as [-> | ->]; cbn; [exists (pollable s)|exists true]; (split; [by destruct s|done]). }
+  split.
+  - eapply qshape_same; [..|exact Hq]; done.
+  - apply cells_unpark; [done|by right|]. intros _. by left.
+  - eapply sst_ok_view; [..|exact Hss]; done.
+  - unfold pc_ok in *; cbn. destruct (pc s) eqn:Epc; try done.
+    destruct Hp as [H1 H2]. split; [done|]. cbn. intros E. destruct (H2 E) as [?|[?|(_ & _ & ?)]]; [by left|right; left; auto|].
+    right; left. apply Hb2. congruence.
+  - eapply ulog_ok_view; [..|exact Hu]; done.
+  - unfold wait_ok in *; cbn. intros E. destruct (Hw E) as [?|Hr]; [left; auto|]. destruct (sst s); try (by right).
+    destruct Hr as (H1 & H2 & [H3|(_ & _ & H3)]); [right; split_and!; try done; by left|].
+    left. apply Hb2. congruence.
+  - done.
+Qed.
+
+Lemma awakeq_inv F nb na s s' : Inv F nb na s -> step F s AWakeQ = Some s' -> Inv F nb na s'.
+Proof.
+  intros [Hq Hc Hss Hp Hu Hw Hl] Hs. cbn in Hs. destruct (pool s) eqn:Epool; [|done].
+  destruct (in_drain (pc s)) eqn:Ed; [done|]. destruct (parked s) eqn:Epk; [|done]. cbn in Hs. injection Hs as <-.
+  replace (s <| parked := false |>) with (s <| owk := owk s |> <| parked := false |> <| pollable := pollable s |>) by (by destruct s).
+  split.
+  - eapply qshape_same; [..|exact Hq]; done.
+  - apply cells_unpark; [done|by left|]. intros _. destruct (cells_parked _ Hc Epk) as [?|(? & _)]; auto.
+  - eapply sst_ok_view; [..|exact Hss]; done.
+  - unfold pc_ok in *; cbn. destruct (pc s) eqn:Epc; try done.
+    destruct Hp as [H1 H2]. split; [done|]. cbn. rewrite Epool. done.
+  - eapply ulog_ok_view; [..|exact Hu]; done.
+  - unfold wait_ok in *; cbn. intros E. destruct (Hw E) as [?|Hr]; [by left|right]. destruct (sst s); try done.
+    destruct Hr as (? & ? & _). split_and!; try done. by left.
+  - done.
 Qed.
 
 (* ---------- all steps ---------- *)
@@ -665,6 +783,9 @@ Proof.
   - by eapply aevent_inv.
   - by eapply adrop_inv.
   - by eapply awake_inv.
+  - by eapply aosusp_inv.
+  - by eapply aowake_inv.
+  - by eapply awakeq_inv.
 Qed.
 
 Lemma run_snoc F s tr a : run F s (tr ++ [a]) = s1 ← run F s tr; step F s1 a.
